@@ -46,4 +46,9 @@ CLAIMS["C09"] = {
     "text": "Decides: Cohort::update_from_omaha writes each field from the same server field exactly under is_some() of that field; App::load restores each field from the same persisted field exactly when unset; the app loop of AppSetExt::update_from_omaha can only end by iterator exhaustion and updates exactly under id equality; the update runs only/always on check Ok and parsed ping; user counting comes from response.daystart; requests carry the app's cohort and ad = rd = its user-counting day; persist/load use json(PersistedApp{cohort,user_counting}) under the app id.",
     "note": "History-level behaviour is reduced to these per-step rules plus C08-R3 (commit with the check's result).",
 }
+CLAIMS["C10"] = {
+    "technique": "outcome-edge dominance (only-under / always-under) of each report site on the interprocedural CFG, match-arm term tables for event constructors, provenance of session/request ids and version fields through calling contexts, loop census for lost-event accounting",
+    "text": "Decides on every CFG path of one check: each outcome (parse error, plan error, deferred, denied, install start, some app installed) reaches exactly its report with the event the property names and no other; download-started dominates perform_install; the per-app event table by installer result; every report uses the check's single session GUID and a request_id(GUID::new()) applied last before its send; previous/next version provenance and map filtering; a failed report records OmahaEventLost (once in the helper, once per listed event inline) and is never sent again; offered apps are zipped with installer results by position.",
+    "note": "Installer contract (one result per offered app in response order) is assumed. The one-vs-many lost-event count for multi-app helper reports is not decided.",
+}
 NOT_APPLICABLE = {}
